@@ -390,8 +390,24 @@ def r4_pseudo(ctx, F):
             root_skip = [t for (t, l) in g if t == vf.fact("Ne(ROOT_ID, %s.ino)" % R(base, sb, sv)) and l != 0] if base else []
             ctx.check(rule, "save/skips-root-only", len(root_skip) == 1 and len([t for (t, l) in g if t.startswith(("Eq(", "Ne("))]) == 1,
                       "PseudoFs::save_to_bytes must save every inode except the root (guards on the push: %s)" % [t for (t, l) in g if "Eq" in t or "Ne" in t], loc=ps[0].loc())
+    chain = False
+    if not ps:
+        # iterator-chain spelling: self.inodes.load().values().filter(|i| i.ino != ROOT_ID).map(|i| PseudoInodeState{..}).collect()
+        inod = f.get("inodes", "")
+        m_ = re.fullmatch(r"Iterator::collect\(Iterator::map\(Iterator::filter\(HashMap::values\(ArcSwapAny::load\(self\.inodes\)\), closure\((\{closure#\d+\})\)\), closure\((\{closure#\d+\})\)\)\)", inod)
+        if m_:
+            cls_ = {c_.key.rsplit("::", 1)[-1]: c_ for c_ in F.closures_of(sb.key)}
+            fc, mc = cls_.get(m_.group(1)), cls_.get(m_.group(2))
+            if fc is not None and mc is not None:
+                ft = R(vf.VF(fc, inline_depth=0).ret(), fc)
+                mt = R(vf.VF(mc, inline_depth=0).ret(), mc)
+                chain = True
+                ok = mt == "PseudoInodeState{ino: inode.ino, parent: inode.parent, name: inode.name}" or \
+                    re.fullmatch(r"PseudoInodeState\{ino: (\w+)\.ino, parent: \1\.parent, name: (?:Clone::clone\()?\1\.name\)?\}", mt) is not None
+                ctx.check(rule, "save/skips-root-only", ft in ("Ne(ROOT_ID, inode.ino)", "Ne(inode.ino, ROOT_ID)") or re.fullmatch(r"Ne\(ROOT_ID, \w+\.ino\)", ft) is not None,
+                          "PseudoFs::save_to_bytes must save every inode except the root (filter: %s)" % ft, loc=sb.loc())
     ctx.check(rule, "save/inode-triple", ok, "PseudoFs::save_to_bytes does not save (ino, parent, name) of each inode", loc=sb.loc())
-    ctx.check(rule, "save/inodes-vector", "Vec::new()" in f.get("inodes", "") or "loop(" in f.get("inodes", "") or f.get("inodes", "").startswith("phi"), "PseudoFsState.inodes is not the collected vector: `%s`" % f.get("inodes", "")[:120], loc=sb.loc())
+    ctx.check(rule, "save/inodes-vector", chain or "Vec::new()" in f.get("inodes", "") or "loop(" in f.get("inodes", "") or f.get("inodes", "").startswith("phi"), "PseudoFsState.inodes is not the collected vector: `%s`" % f.get("inodes", "")[:120], loc=sb.loc())
 
     # restore_from_bytes delegates to restore_from_state with the loaded state
     lv = vf.VF(lb, inline_depth=0)
